@@ -160,6 +160,7 @@ BASE = [int, float, bool, str]
 class GOpts(object):
     def __init__(self, **kw):
         self.untyped = False       # constructs the inferrer cannot type (known finding shapes)
+        self.shift = False         # the whole function: one tuple assignment shifting types through 5-8 variables in a loop
         self.loopelse = False      # start with nested loops whose else clauses break / continue the enclosing loop
         self.loopmut = False       # start with: loop { if-without-else / inner loop { x = <other type> } ; read x }
         self.nested = True
@@ -861,7 +862,48 @@ class Gen(object):
                 self.emit(ind, '%s = %s' % (nl, safe()))
         self.emit(ind, 'return %s' % safe())
 
+    def shift_function(self):
+        """A tiny function (few CFG nodes) whose loop needs many passes: ONE tuple assignment shifts / rotates the
+        types of k variables by one position per iteration, so the loop head changes k times; the first
+        variable is read in the loop, after it and (optionally) inside a local function called there.
+        Two or three distinct tags only: visit_Tuple builds the product of the element sets."""
+        r = self.r
+        k = r.choice([5, 6, 7, 8])
+        pool = r.sample([('1', '0'), ('0.5', '2.0'), ("'s'", "'tt'"), ('True', 'False')], 3 if k == 5 else 2)
+        names = ['s%d' % i for i in range(1, k + 1)]
+        self.emit(0, 'def f(a, b, c):')
+        # the first variables share one tag, the other tags sit at the far end
+        init = [pool[0][i % 2] for i in range(k - 1)] + [pool[1][0]]
+        if len(pool) == 3:
+            init[k - 2] = pool[2][0]
+        self.emit(1, '%s = %s' % (', '.join(names), ', '.join(init)))
+        local_fn = r.random() < 0.4
+        if local_fn:
+            self.emit(1, 'def g1():')
+            self.emit(2, 'return (%s, 0)' % names[0])
+        trips = k + r.choice([1, 2, 4])
+        last = r.choice([names[0], pool[1][1], pool[-1][0]])       # rotation or shift-in of a constant
+        stmt = '%s = %s' % (', '.join(names), ', '.join(names[1:] + [last]))
+        if r.random() < 0.5:
+            self.emit(1, 'for n1 in (%s):' % ''.join('%d, ' % i for i in range(trips)))
+        else:
+            stmt = 'n1, ' + stmt.replace(' = ', ' = (n1 + 1), ', 1)
+            self.emit(1, 'n1 = 0')
+            self.emit(1, 'while n1 < %d:' % trips)
+        c = r.random()
+        if c < 0.3:
+            self.emit(2, 'x = %s' % names[0])
+        self.emit(2, stmt)
+        if local_fn and r.random() < 0.5:
+            self.emit(2, 'g1()')
+        if local_fn:
+            self.emit(1, 'y = g1()')
+        self.emit(1, 'return (%s, %s)' % (names[0], names[1]))
+        return '\n'.join(self.lines) + '\n'
+
     def function(self):
+        if self.o.shift:
+            return self.shift_function()
         self.funs = {}
         self.defined_outer = set(PARAMS)
         self.emit(0, 'def f(a, b, c):')
